@@ -953,6 +953,13 @@ class Interp:
             raise Unsupported('yield without a consumer model')
         return h(v)
 
+    def e_YieldFrom(self, n, env):
+        v = self.eval(n.value, env)
+        h = getattr(self, 'on_yield_from', None)
+        if h is None:
+            raise Unsupported('yield from without a consumer model')
+        return h(v)
+
     def e_Starred(self, n, env):
         raise Unsupported('starred expression outside call/tuple')
 
